@@ -1,5 +1,5 @@
 (* C15/Driver.v — entry points of the correspondence run (extracted to OCaml). *)
-From RM Require Import C15.Model C15.Schema C15.Widths C15.Utf8 C15.Pretty.
+From RM Require Import C15.Model C15.Schema C15.Widths C15.Utf8 C15.Pretty C15.Scalar.
 From RM Require C19.Model.
 Open Scope Z_scope.
 
@@ -37,8 +37,8 @@ Definition flip_confidence_bits (b : flip) : Z :=
     {| C19.Model.d_nc := bf_nc b; C19.Model.d_null := bf_null b; C19.Model.d_low := bf_low b;
        C19.Model.d_nearby := bf_nearby b; C19.Model.d_poison := bf_poison b |}.
 
-(* the hypotheses of c15_schema_conformance, evaluated on a real process state *)
-Definition wf_ok (s : state) : bool := wf_state s && regs_named_ok (s_registers s).
+(* the hypotheses of c15_schema_conformance / c15_address_widths / c15_report_valid, evaluated on a real process state *)
+Definition wf_ok (s : state) : bool := wf_state s && regs_named_ok (s_registers s) && state_scalar s.
 
 (* the theorem's conclusion evaluated on the REAL output: the model's parser reads the real document and the
    Gallina checker judges it against the schema regenerated from json-schema.md *)
